@@ -122,7 +122,6 @@ func checkC10(r *Run) {
 		return
 	}
 	r.Stats["packages"] = len(p.Repo)
-	r.Rule("C10.R1.mirror", "each forward/backward pair of unary.Iterator agrees item by item (guards, view updates, domain-iterator calls) under the time mirror", 3)
 	r.Rule("C10.R2.dispatch", "streamIterator.exec maps each iterator command to the unary.Iterator method of the same name, for every command validateIteratorCommand accepts", 8)
 
 	r.Rule("C10.R3.bounds", "unary.Iterator.SetBounds stores the new range and hands that same range to the domain iterator: the unary layer cuts views with i.bounds while the domain iterator seeks and filters with its own copy, so the two must be the range just given", 2)
@@ -187,8 +186,8 @@ func checkC10(r *Run) {
 				break
 			}
 		}
-		r.Ob("C10.R1.mirror", "unary.Iterator."+pair[0]+" and "+pair[1]+" are time mirrors", p.Position(f.Pos()), diff == "" && len(fs) >= 3,
-			diff+" (the two directions must treat a view that touches a domain boundary the same way, or one of them skips or repeats that domain)")
+		r.Info("C10.R1.mirror", "unary.Iterator."+pair[0]+" and "+pair[1]+" are written as time mirrors", p.Position(f.Pos()), diff == "" && len(fs) >= 3,
+			diff+" (the two directions must treat a view that touches a domain boundary the same way; a textual difference is a reason to read both, not a verdict: a rewrite of one side alone differs too)")
 	}
 
 	// R2: command dispatch
